@@ -15,6 +15,20 @@ Theorem C02_inline_default_layout : forall H, wf3 H = true -> default_layout H -
 Proof. exact read_inline_default. Qed.
 Print Assumptions C02_inline_default_layout.
 
+Theorem C02_crossline_default_layout : forall H, wf3 H = true -> default_layout H -> forall xl, 0 <= xl < s_nxl H ->
+  exists v, rd_read_crossline H xl = Return v /\ av_shape v = [s_nil H; s_ns H] /\
+    (forall i z, 0 <= i < s_nil H -> 0 <= z < s_ns H -> av_cell v [i; z] = spec_cell3 H i xl z) /\
+    av_reads v = map (fun j => (s_ub3 H * unit_index3 H j (xl / 4) 0, s_ub3 H * (s_PZ H / 4))) (zrange 0 (s_PI H / 4)).
+Proof. exact read_crossline_default. Qed.
+Print Assumptions C02_crossline_default_layout.
+
+Theorem C02_zslice_default_layout : forall H, wf3 H = true -> default_layout H -> forall z, 0 <= z < s_ns H ->
+  exists v, rd_read_zslice H z = Return v /\ av_shape v = [s_nil H; s_nxl H] /\
+    (forall i x, 0 <= i < s_nil H -> 0 <= x < s_nxl H -> av_cell v [i; x] = spec_cell3 H i x z) /\
+    av_reads v = map (fun k => (s_ub3 H * (k * (s_PZ H / 4) + z / 4), s_ub3 H)) (zrange 0 ((s_PI H / 4) * (s_PX H / 4))).
+Proof. exact read_zslice_default. Qed.
+Print Assumptions C02_zslice_default_layout.
+
 Example C02_nonvacuous :
   let H := hdr_of_list [2; 50; 5; 5; 4; 4; 4; 512; 2; 100; 2; 25; 4199] in
   wf3 H = true /\ default_layout H /\ 0 <= 3 < s_nil H.
